@@ -9,12 +9,12 @@ from pbmon.oracle import relmat as O
 PROPERTY = "C13"
 NSHARDS = {"quick": 4, "thorough": 16}
 CLAUSES = {
-    "C13.def.molecular": 400, "C13.def.vanraden": 300, "C13.def.yang": 200, "C13.def.gweighted": 300,
-    "C13.kinship": 1000, "C13.symmetric": 1000, "C13.psd": 1000, "C13.labels": 1000,
-    "C13.equivariance.perm": 800, "C13.equivariance.subset": 500,
-    "C13.summary.inverse": 200, "C13.summary.extreme": 1000, "C13.summary.mean": 1000,
-    "C13.summary.min_inbreeding": 200, "C13.psdflag": 100,
-    "C13.factory": 150, "C13.intact": 1000,
+    "C13.def.molecular": 3000, "C13.def.vanraden": 3000, "C13.def.yang": 2000, "C13.def.gweighted": 3000,
+    "C13.kinship": 40000, "C13.symmetric": 10000, "C13.psd": 10000, "C13.labels": 30000,
+    "C13.equivariance.perm": 10000, "C13.equivariance.subset": 8000,
+    "C13.summary.inverse": 5000, "C13.summary.extreme": 100000, "C13.summary.mean": 40000,
+    "C13.summary.min_inbreeding": 5000, "C13.psdflag": 3000,
+    "C13.factory": 2500, "C13.intact": 20000,
 }
 RULE = ("seeded class-based genotype matrices: phased (ploidy,n,m) and unphased (n,m) int8 sources of ploidy 1 and 2; n in 1..40 "
         "(plus n=49/98/103 where 1/(ploidy*n) rounds), m in 1..60 (skewed small, m=1 included); contents random / rare alleles / "
@@ -388,6 +388,18 @@ def expected(est, kwargs, alleles, ploidy):
     return O.gweighted(x, ploidy, freq_vector(kwargs["afreq"], x, ploidy, m), w)
 
 
+def key_class(est, kwargs, ploidy):
+    """Coarse input class for finding keys: ploidy path and how the reference frequencies / weights were supplied."""
+    parts = ["ploidy %d" % ploidy]
+    for name in ("p_anc", "afreq"):
+        if name in kwargs:
+            v = kwargs[name]
+            parts.append("re-estimated frequencies" if v is None else ("scalar frequency" if numpy.ndim(v) == 0 else "frequency vector"))
+    if "mkrwt" in kwargs:
+        parts.append("default weights" if kwargs["mkrwt"] is None else "given weights")
+    return "/".join(parts)
+
+
 def copy_kwargs(kw):
     return {k: (v.copy() if isinstance(v, numpy.ndarray) else v) for k, v in kw.items()}
 
@@ -432,9 +444,10 @@ def one_case(ctx, c):
             continue
         kwargs, acls = plan[est]
         Cls, Fac = cls[est]
-        icls = "%s/%s" % (src["kind"], acls)
+        icls = key_class(est, kwargs, ploidy)
+        ctx.sumnote("driven: %s on %s with %s" % (est, src["kind"], acls))
         site = "%s.from_gmat" % Cls.__name__
-        wit = {"estimator": est, "source_mat": raw, "ploidy": ploidy, "arguments": kwargs}
+        wit = {"estimator": est, "source": src["kind"], "source_mat": raw, "ploidy": ploidy, "argument_class": acls, "arguments": kwargs}
         ok, cm = returns(ctx, site, icls, coords, lambda: Cls.from_gmat(gm, **copy_kwargs(kwargs)), wit)
         if not ok:
             continue
@@ -454,7 +467,7 @@ def one_case(ctx, c):
         for idx, clause, what in ((perm, "C13.equivariance.perm", "permutation"), (sub, "C13.equivariance.subset", "sub-selection")):
             if reest and clause.endswith("subset"):
                 continue  # re-estimated reference frequencies change with the subset: not claimed
-            ecls = "%s/%s" % (icls, "re-estimated frequencies" if reest else "fixed reference")
+            ecls = icls
             t2 = None if src["taxa_now"] is None else src["taxa_now"][idx]
             g2 = None if src["grp_now"] is None else src["grp_now"][idx]
             gm2 = make_gmat(A_now[:, idx, :], phased, ploidy, t2, g2)
